@@ -196,14 +196,14 @@ def check(case):
                     break
     # 3. order, zeros()
     for i in range(len(rows) - 1):
-        if rows[i + 1].time < rows[i].time or (rows[i + 1].distance.raw_value < rows[i].distance.raw_value and i + 1 < len(body)):
+        if rows[i + 1].time < rows[i].time:
             r.bad("C15:rows-out-of-order", f"rows {i},{i + 1}: t {rows[i].time!r},{rows[i + 1].time!r}; x {rows[i].distance >> D.Foot!r},{rows[i + 1].distance >> D.Foot!r}")
             break
     if hit is not None:
         zr = [row for row in rows if int(row.flag) & 3]
         try:
             z = hit.zeros()
-            if not zr or len(z) != len(zr) or any(a is not b for a, b in zip(z, zr)):
+            if not zr or len(z) != len(zr) or any(a is not b and build.row_raw(a) != build.row_raw(b) for a, b in zip(z, zr)):
                 r.bad("C15:zeros()", f"zeros() returned {len(z)} rows, {len(zr)} rows carry a zero flag")
         except ArithmeticError:
             if zr:
@@ -223,6 +223,6 @@ def parts(tier):
 MANIFEST = {
     "technique": "Hypothesis-generated shots/requests; independent event model (sight-line and sonic crossings) computed from a step trace of the same shot; 1-1 correspondence and one-step bounds on the request's flagged rows",
     "text": "Flags on every integration point equal the crossing model (zero-up/down at most once, Mach every time incl. re-acceleration); the request's flagged rows correspond 1-1 to the crossings, lie inside the crossing step "
-            "(target_drop <= one step's change, Mach within the step and <= 1), rows ordered, zeros() consistent. Exploration level.",
+            "(target_drop <= one step's change, Mach within the crossing step's own range), rows in time order, zeros() consistent. Exploration level.",
     "note": "trace obtained through the public API (huge record step + tiny time step); launch exactly on the sight line is a don't-care",
 }
